@@ -22,8 +22,13 @@ MC_LABELS = [0, 2, 2]
 BIN_LOGITS = [0.75, 0.5, 0.25]
 BIN_LABELS = [0, 1, 0]
 THRESHOLD = 0.5
+# the same with thresholds on raw logits (0 and negative): labels stay 0/1 whatever the threshold
+BIN = {'acc-thr': (BIN_LOGITS, BIN_LABELS, THRESHOLD),
+       'acc-thr0': ([-0.5, 0.0, 0.25], [0, 1, 0], 0.0),      # correct, correct at the boundary, wrong
+       'acc-thrn': ([-2.0, -1.0, -0.5], [0, 0, 1], -1.0)}    # correct, wrong at the boundary, correct
 
-VARIANTS_QUICK = ['avg', 'avg-scalar', 'acc', 'acc-thr', 'welford', 'welford-scalar', 'multi']
+VARIANTS_QUICK = ['avg', 'avg-scalar', 'acc', 'acc-thr', 'acc-thr0', 'acc-thrn', 'welford',
+                  'welford-scalar', 'multi']
 VARIANTS_THOROUGH = VARIANTS_QUICK + ['avg-2d', 'welford-2d', 'avg-int']
 
 
@@ -36,8 +41,8 @@ def make_metric(variant):
     return M.Average('loss')
   if variant == 'acc':
     return M.Accuracy()
-  if variant == 'acc-thr':
-    return M.Accuracy(threshold=THRESHOLD)
+  if variant in BIN:
+    return M.Accuracy(threshold=BIN[variant][2])
   if variant in ('welford', 'welford-2d'):
     return M.Welford()
   if variant == 'welford-scalar':
@@ -68,9 +73,9 @@ def update_kwargs(variant, batch):
   if variant == 'acc':
     return dict(logits=jnp.asarray([MC_LOGITS[i] for i in batch], dtype=jnp.float32),
                 labels=jnp.asarray([MC_LABELS[i] for i in batch], dtype=jnp.int32))
-  if variant == 'acc-thr':
-    return dict(logits=jnp.asarray([BIN_LOGITS[i] for i in batch], dtype=jnp.float32),
-                labels=jnp.asarray([BIN_LABELS[i] for i in batch], dtype=jnp.int32))
+  if variant in BIN:
+    return dict(logits=jnp.asarray([BIN[variant][0][i] for i in batch], dtype=jnp.float32),
+                labels=jnp.asarray([BIN[variant][1][i] for i in batch], dtype=jnp.int32))
   if variant == 'multi':
     return dict(logits=jnp.asarray([MC_LOGITS[i] for i in batch], dtype=jnp.float32),
                 labels=jnp.asarray([MC_LABELS[i] for i in batch], dtype=jnp.int32),
@@ -84,8 +89,9 @@ def _mc_correct(i):
   return int(np.argmax(np.asarray(MC_LOGITS[i])) == MC_LABELS[i])
 
 
-def _bin_correct(i):
-  return int((BIN_LOGITS[i] >= THRESHOLD) == (BIN_LABELS[i] > 0))
+def _bin_correct(i, variant='acc-thr'):
+  lg, lb, thr = BIN[variant if variant in BIN else 'acc-thr']
+  return int((lg[i] >= thr) == (lb[i] > 0))
 
 
 def ref_average(xs):
@@ -110,7 +116,7 @@ def ref_summary(variant, since):
   the metric's own accumulators it determines every future expectation."""
   vals = [int(VALUES[i]) for i in since]
   return (len(since), sum(vals), sum(v * v for v in vals),
-          sum(_mc_correct(i) for i in since), sum(_bin_correct(i) for i in since))
+          sum(_mc_correct(i) for i in since), sum(_bin_correct(i, variant) for i in since))
 
 
 def expected(variant, since):
@@ -120,8 +126,8 @@ def expected(variant, since):
     return {'': ('exact', ref_average(vals))}
   if variant == 'acc':
     return {'': ('exact', ref_average([_mc_correct(i) for i in since]))}
-  if variant == 'acc-thr':
-    return {'': ('exact', ref_average([_bin_correct(i) for i in since]))}
+  if variant in BIN:
+    return {'': ('exact', ref_average([_bin_correct(i, variant) for i in since]))}
   if variant.startswith('welford'):
     return {'': ('welford', ref_welford(vals))}
   if variant == 'multi':
